@@ -247,6 +247,7 @@ pub fn gen(prop: &str, seed: u64, thorough: bool, out: &mut impl Write) {
             }
             // index 512 and beyond must be rejected by PageTableIndex::new inside the harness
             emit(out, &[35, 512, 0, 0, 0]);
+            for st in [0u64, 1, 255, 256, 510, 511] { for n in [0u64, 1, 2, 255, 256, 510, 511, 512, 513] { if st + n >= 508 { emit(out, &[47, st, n]); } emit(out, &[48, st, n]); } }
             emit(out, &[33, 0, 512]);
             let n = if thorough { 3_000_000 } else { 100_000 };
             for _ in 0..n {
@@ -521,6 +522,11 @@ fn judge(prop: &str, c: &[u64], a: &[i128]) -> (Option<&'static str>, bool) {
             _ => (None, false),
         },
         "C04" => match c[0] {
+            47 | 48 => {
+                // stepping is another producer of table indices: whatever it returns is an index below 512
+                if ok1 && v >= 512 { return (Some("a step on a page-table index produced an index outside 0..512"), true); }
+                (None, c[1] + c[2] >= 510)
+            }
             9 => {
                 let x = c[1];
                 let exp = [bitfield(x, 0, 12), bitfield(x, 12, 9), bitfield(x, 21, 9), bitfield(x, 30, 9), bitfield(x, 39, 9),
